@@ -59,6 +59,17 @@ func (m *MuxBroker) Accept(id uint32) (net.Conn, error) {
 	select {
 	case c = <-p.ch:
 		verifhook.Point("mux.accept.gotConn", id)
+
+		// This entry has served its purpose. Take it out of the map before
+		// signalling its watcher, so that the next dial or accept of this ID
+		// gets an entry of its own and never this used one (whose doneCh is
+		// closed: a stream parked in it would never expire, and a second
+		// accept would close doneCh twice).
+		m.Lock()
+		if m.streams[id] == p {
+			delete(m.streams, id)
+		}
+		m.Unlock()
 		close(p.doneCh)
 	case <-time.After(5 * time.Second):
 		m.Lock()
@@ -203,8 +214,11 @@ func (m *MuxBroker) timeoutWait(id uint32, p *muxBrokerPending) {
 	m.Lock()
 	defer m.Unlock()
 
-	// Delete the stream so no one else can grab it
-	delete(m.streams, id)
+	// Delete the stream so no one else can grab it (unless the ID is
+	// already in use again with an entry of its own)
+	if m.streams[id] == p {
+		delete(m.streams, id)
+	}
 
 	// If we timed out, then check if we have a channel in the buffer,
 	// and if so, close it.
